@@ -48,7 +48,7 @@ def branch_table(desc, limit=128):
                 if sv.TOL < p1 < 1 - sv.TOL:
                     other = gc.RefRun(desc, ref.v)
                     other.step(d, "follow", 1)
-                    stack.append((i + 1, other, amp * np.sqrt(p1), key + ((w + (k,), 1),), occ))
+                    stack.append((i + 1, other, amp * np.sqrt(p1), key + ((w + (k,), 1),), dict(occ)))  # a copy: this branch goes on counting
                     ref.step(d, "follow", 0)
                     amp *= np.sqrt(1 - p1)
                     key += ((w + (k,), 0),)
@@ -256,7 +256,10 @@ def check_pair(case, sub="pairs"):
             raise Violation(sub, "unsound", method, icls,
                             "reported equal, but the circuits are inequivalent%s" % (" under every renaming of registers" if method == "is_isomorphic" else ""))
         if preserving and kinds != ["independent"] and not r12:
-            raise Violation(sub, "wrapping-sensitive", method, icls, "circuits differing only by %s compare unequal" % (kinds,))
+            # GED_approximate takes the first candidate of networkx' anytime search: all its false "different" answers on
+            # equivalent circuits are one root cause, whatever the edit was -> one input class
+            raise Violation(sub, "wrapping-sensitive", method, "semantics_preserving_edit" if method == "GED_approximate" else icls,
+                            "circuits differing only by %s compare unequal" % (kinds,))
         rc = guarded(sub, icls, compare_circuits, c1, c1.copy(), method=method)
         if not rc:
             raise Violation(sub, "not-reflexive", method, icls, "a circuit compares unequal to its copy")
